@@ -63,6 +63,49 @@ def observe(text):
     return ("OK\t%d\t%s\t%d\t%d\t%d" % (count(ast), " ".join(trace), lines, hits["x"], hits["g"]), dump(ast, False))
 
 
+def visitor_history(text):
+    """visitor classes related by inheritance, used one after the other on the same AST: what a visit_X
+    method intercepts must depend only on the class of the visitor, not on which visitors ran before"""
+    from pycparser import c_ast
+    r = py_parse_obj(text, "")
+    if r[0] != "OK":
+        return None
+    ast = r[1]
+    want = {}
+
+    def walk(n):
+        want[type(n).__name__] = want.get(type(n).__name__, 0) + 1
+        for _, c in n.children():
+            walk(c)
+
+    walk(ast)
+
+    def mkcls(base, names):
+        ns = {"__init__": lambda self: setattr(self, "hits", {})}
+        for nm in names:
+            def visit_X(self, node, nm=nm):
+                assert type(node).__name__ == nm
+                self.hits[nm] = self.hits.get(nm, 0) + 1
+                self.generic_visit(node)
+            ns["visit_" + nm] = visit_X
+        return type("V_" + "_".join(names), (base,), ns)
+
+    problems = []
+    for order in (["A", "B", "A", "C", "B"], ["C", "B", "A"], ["B", "A"]):
+        A = mkcls(c_ast.NodeVisitor, ["ID"])
+        B = mkcls(A, ["Constant"])
+        C = mkcls(B, ["BinaryOp", "ID"])
+        classes = {"A": (A, ["ID"]), "B": (B, ["ID", "Constant"]), "C": (C, ["ID", "Constant", "BinaryOp"])}
+        for step, key in enumerate(order):
+            cls, names = classes[key]
+            v = cls()
+            v.visit(ast)
+            exp = {nm: want[nm] for nm in names if nm in want}
+            if v.hits != exp:
+                problems.append("visitor class %s (methods %s) used as step %d of %s intercepted %r, expected %r" % (key, names, step, order, v.hits, exp))
+    return problems
+
+
 def cfg_classes():
     """_c_ast.cfg read independently of _ast_gen.py: [(class, [(field, kind)])], kind in attr/child/seq"""
     import os, re
@@ -161,9 +204,14 @@ def classify(replay):
 
 def run(ctx):
     texts = [t for t in progs.pool(ctx, scale=0.3) if len(t) < 6000]
-    ctx.rule("class-level part: 49 classes x every subset of absent node-valued fields, exhaustive, as kernel-checked obligations on regenerated observations and, to name a concrete failing class/field set, evaluated on the live classes against _c_ast.cfg read independently of _ast_gen.py (positional constructor order, attr_names, children() names/objects/order, iteration = children()); tree-level part: for the programs of the pool (" + progs.RULE + ") a counting NodeVisitor, a visitor overriding visit_BinaryOp/visit_Decl/visit_Compound and show() on the real AST vs the generic model")
+    ctx.rule("class-level part: 49 classes x every subset of absent node-valued fields, exhaustive, as kernel-checked obligations on regenerated observations and, to name a concrete failing class/field set, evaluated on the live classes against _c_ast.cfg read independently of _ast_gen.py (positional constructor order, attr_names, children() names/objects/order, iteration = children()); tree-level part: visitor classes related by inheritance used in several orders on one AST (interception must not depend on history); for the programs of the pool (" + progs.RULE + ") a counting NodeVisitor, a visitor overriding visit_BinaryOp/visit_Decl/visit_Compound and show() on the real AST vs the generic model")
     ncls = class_level(ctx)
     ctx.count(ncls, nontrivial_n=ncls)
+    hist_texts = [t for t in texts if "1" in t and "+" in t][:40]
+    for t in hist_texts:
+        for why in visitor_history(t) or []:
+            ctx.violation(why + " on %r" % t[:80], {"kind": "visitor-history", "text": t})
+    ctx.count(len(hist_texts), nontrivial_n=len(hist_texts))
     both = pmap(observe, texts)
     obs = [b[0] if b else None for b in both]
     # the real AST (dumped) is handed to the generic model: no dependence on the parser model
@@ -186,6 +234,10 @@ def run(ctx):
 
 
 def replay(ctx, payload):
+    if payload["input"].get("kind") == "visitor-history":
+        pr = visitor_history(payload["input"]["text"])
+        print(pr)
+        return not pr
     if payload["input"].get("kind") == "class":
         i = payload["input"]
         why = class_case(i["class"], dict(cfg_classes())[i["class"]], i["present"])
